@@ -175,7 +175,46 @@ def solution_recipe(extreme=True, max_pps=4):
         "processor_name": st.one_of(st.none(), st.text(PROC_ALPHABET, min_size=1, max_size=30).filter(
             lambda s: s != "auto")),
         "pretty": st.booleans(),
+        # optional later edit of an already used solution: [pp index, new vehicle type or None, cost index or None,
+        # new computation time or None]
+        "edit": st.one_of(st.none(), st.none(), st.tuples(
+            st.integers(0, 3), st.one_of(st.none(), st.integers(1, 4)), st.one_of(st.none(), st.integers(0, 7)),
+            st.one_of(st.none(), st.floats(1e-3, 1e3))).map(list)),
     })
+
+
+def reference_benchmark_id(r):
+    """'vehicles:costs:scenario:version' printed from the recipe alone."""
+    vehicles = ["%s%d" % (p["model"], p["vtype"]) for p in r["pps"]]
+    costs = [p["cost"] for p in r["pps"]]
+    return "%s:%s:%s:%s" % (vehicles[0] if len(vehicles) == 1 else "[%s]" % ",".join(vehicles),
+                            costs[0] if len(costs) == 1 else "[%s]" % ",".join(costs),
+                            reference_id_string(r["scenario_id"]), r["scenario_id"]["scenario_version"])
+
+
+def apply_edit(sol, r):
+    """Edits an existing Solution through public attributes / setters as r["edit"] prescribes; returns the recipe that
+    describes the edited solution (None if the recipe has no edit)."""
+    e = r.get("edit")
+    if not e:
+        return None
+    import copy
+    r2 = copy.deepcopy(r)
+    r2["edit"] = None
+    i = e[0] % len(r["pps"])
+    p = r2["pps"][i]
+    target = sol.planning_problem_solutions[i]
+    if e[1] is not None:
+        target.vehicle_type = VehicleType(e[1])
+        p["vtype"] = e[1]
+    if e[2] is not None:
+        costs = COSTS_FOR_MODEL.get(p["model"], ALL_COSTS)
+        p["cost"] = costs[e[2] % len(costs)]
+        target.cost_function = CostFunction[p["cost"]]
+    if e[3] is not None:
+        sol.computation_time = e[3]
+        r2["computation_time"] = e[3]
+    return r2
 
 
 def build_solution(r):
